@@ -95,14 +95,16 @@ func b64dec(s string) ([]byte, bool) {
 
 // entry is one thing the peer delivered.
 type entry struct {
-	Kind    string `json:"kind"`              // script action
-	Carrier string `json:"carrier"`           // element/construct that went on the wire
-	Legit   int    `json:"legit"`             // index of the legitimate mechanism message carried, or -1
-	Final   bool   `json:"final,omitempty"`   // that message is the mechanism's last one
-	Empty   bool   `json:"empty,omitempty"`   // no payload
-	Step    int    `json:"step,omitempty"`    // receiver workload: index of the multi-step mechanism's message
-	Mech    string `json:"mech,omitempty"`    // receiver workload: mechanism named by <auth/>
-	Payload string `json:"payload,omitempty"` // receiver workload: payload class
+	Kind        string `json:"kind"`                  // script action
+	Carrier     string `json:"carrier"`               // element/construct that went on the wire
+	Legit       int    `json:"legit"`                 // index of the legitimate mechanism message carried, or -1
+	Final       bool   `json:"final,omitempty"`       // that message is the mechanism's last one
+	Empty       bool   `json:"empty,omitempty"`       // no payload
+	Undecodable bool   `json:"undecodable,omitempty"` // the payload is not base64
+	Text        string `json:"text,omitempty"`        // payload of table-driven actions
+	Step        int    `json:"step,omitempty"`        // receiver workload: index of the multi-step mechanism's message
+	Mech        string `json:"mech,omitempty"`        // receiver workload: mechanism named by <auth/>
+	Payload     string `json:"payload,omitempty"`     // receiver workload: payload class
 }
 
 // keyFamily is the mechanism component of class keys: the channel-binding
@@ -135,6 +137,10 @@ func acceptInitiator(log []entry, steps int) (bool, string) {
 		}
 		any = true
 		switch {
+		case e.Undecodable:
+			// an undecodable payload is never part of an accepting exchange, on
+			// whatever element and at whatever point it comes
+			return false, "deviation-undecodable-payload"
 		case e.Legit >= 0:
 			if e.Legit != next {
 				return false, "deviation-replay"
@@ -200,6 +206,46 @@ var initAlphabet = []string{
 	"Fi", "Fw", "Fe", // <failure/> with invalid-mechanism, mechanism-too-weak, temporary-auth-failure
 	"Ns", "Nc", "Nq", "Se", // success / challenge outside the SASL namespace, an IQ, a stream error
 	"T", "W", "Cm", "E", "Z", // text, whitespace, comment, EOF, </stream:stream>
+	"Sp", "Cp", // <success/> / <challenge/> carrying the next payload of the table (lengths 0-8 x validity)
+}
+
+// payloadTable: character data of lengths 0 to 8, valid base64, invalid
+// characters, bad padding and the '=' forms.
+var payloadTable = []string{
+	"", "=", "!", "a", "==", "%%", "ab", "a=", "a==", "===", "abc", "!!!",
+	"QQ==", "QUI=", "QUJD", "====", "a===", "!!!!", "Q=JD", "QUJDR", "QUJD=", "Q!JD=",
+	"QUJDRA", "QUJD==", "QUJDRA=", "QUJDRA==", "QUJDREVG", "QUJDRA=!", "========", " QQ==", "QQ ==",
+	"eD0x", "eD0xLA==", // "x=1", "x=1,": decodable, harmless to the SCRAM client's parser
+}
+
+// spinsSCRAMClient: mellium.im/sasl v0.3.2's SCRAM client never returns from
+// Step when the LAST comma-separated field of the first server message is
+// shorter than three bytes or has no '=' as its second byte (scram_client.go:
+// `continue` skips the `remain == nil` exit).  That is a wedge on peer input in
+// a dependency (C09's subject), not a statement about the Authn bit, and a
+// spinning case would only cost this check its watchdog: such payloads are not
+// delivered to a SCRAM client that still waits for its first server message.
+func spinsSCRAMClient(payload string) bool {
+	b, err := base64.StdEncoding.DecodeString(strings.TrimSpace(payload))
+	if err != nil || len(b) == 0 {
+		return false
+	}
+	f := b
+	if i := bytes.LastIndexByte(b, ','); i >= 0 {
+		f = b[i+1:]
+	}
+	return len(f) < 3 || f[1] != '='
+}
+
+// undecodable reports whether s is neither empty, the RFC 6120 "=" for empty,
+// nor standard base64 (surrounding white space allowed).
+func undecodable(s string) bool {
+	s = strings.TrimSpace(s)
+	if s == "" || s == "=" {
+		return false
+	}
+	_, err := base64.StdEncoding.DecodeString(s)
+	return err != nil
 }
 
 type initScenario struct {
@@ -223,6 +269,13 @@ type initScenario struct {
 	// SASLExtra: another element in the SASL namespace in the features list,
 	// "after", "before" or on "both" sides of <mechanisms/>.
 	SASLExtra string `json:"sasl_extra,omitempty"`
+	// Payloads are consumed in order by the table-driven actions Sp / Cp (a
+	// PRNG-chosen entry of the table when there are none left).
+	Payloads []string `json:"payloads,omitempty"`
+	// MechLayout puts something that is not a direct <mechanism/> child into
+	// <mechanisms/>; Stray is the text it carries (a mechanism name).
+	MechLayout string `json:"mech_layout,omitempty"`
+	Stray      string `json:"stray,omitempty"`
 
 	// filled in by the run
 	Log      []entry `json:"delivered,omitempty"`
@@ -235,22 +288,24 @@ type initAdv struct {
 	sc *initScenario
 	r  *rand.Rand
 
-	all       []byte
-	seen      int // wire events consumed
-	headers   int
-	next      int // next script index
-	log       []entry
-	srv       *saslpeer.Server
-	authMechs []string
-	authAt    []int // log length when each <auth/> arrived: an exchange starts there
-	payload   []byte
-	havePay   bool
-	legitIdx  int
-	complete  bool
-	lastLegit []byte
-	wireBad   string
-	tlsState  *tls.ConnectionState
-	clientEls []string
+	all         []byte
+	seen        int // wire events consumed
+	headers     int
+	next        int // next script index
+	log         []entry
+	srv         *saslpeer.Server
+	authMechs   []string
+	spinAvoided int
+	offered     []string // independent parse of the list that was sent: text of the direct <mechanism/> children
+	authAt      []int    // log length when each <auth/> arrived: an exchange starts there
+	payload     []byte
+	havePay     bool
+	legitIdx    int
+	complete    bool
+	lastLegit   []byte
+	wireBad     string
+	tlsState    *tls.ConnectionState
+	clientEls   []string
 
 	// concurrent (TLS) transport only: gate reports whether the library is
 	// waiting for input (true) or has already left the SASL feature (false).
@@ -280,6 +335,56 @@ func featuresXML(mechs []string) string {
 	}
 	sb.WriteString(`</mechanisms></stream:features>`)
 	return sb.String()
+}
+
+// layoutMechanisms rewrites the <mechanisms/> element of a features list.
+func layoutMechanisms(f, layout, stray string) string {
+	open, end := "<mechanisms xmlns='"+nsSASL+"'>", "</mechanisms>"
+	lookalike := "<ext xmlns='urn:verif:ext'><mechanism xmlns='" + nsSASL + "'>" + stray + "</mechanism>" + stray + "</ext>"
+	switch layout {
+	case "text-after": // character data right behind a </mechanism> (or at the start of an empty list)
+		if i := strings.LastIndex(f, "</mechanism>"); i >= 0 {
+			return f[:i+len("</mechanism>")] + stray + f[i+len("</mechanism>"):]
+		}
+		return strings.Replace(f, open, open+stray, 1)
+	case "text-before":
+		return strings.Replace(f, open, open+stray, 1)
+	case "ext-child": // an extension child whose text is a mechanism name (cf. XEP-0233 <hostname/>)
+		return strings.Replace(f, end, "<hostname xmlns='urn:xmpp:domain-based-name:1'>"+stray+"</hostname>"+end, 1)
+	case "ext-child-first":
+		return strings.Replace(f, open, open+"<hostname xmlns='urn:xmpp:domain-based-name:1'>"+stray+"</hostname>", 1)
+	case "nested": // a look-alike <mechanism/> one level down, with text behind it
+		return strings.Replace(f, end, lookalike+end, 1)
+	case "nested-first":
+		return strings.Replace(f, open, open+lookalike, 1)
+	case "foreign-ns": // <mechanism/> in another namespace
+		return strings.Replace(f, end, "<mechanism xmlns='urn:verif:not-sasl'>"+stray+"</mechanism>"+end, 1)
+	case "pretty": // white space layout, stray text on its own line
+		f = strings.ReplaceAll(f, "<mechanism>", "\n    <mechanism>")
+		return strings.Replace(f, end, "\n  "+stray+"\n"+end, 1)
+	}
+	return f
+}
+
+var mechLayouts = []string{"text-after", "text-before", "ext-child", "ext-child-first", "nested", "nested-first", "foreign-ns", "pretty"}
+
+// parseOffered is the monitor's own reading of a features list: the character
+// data of the direct <mechanism/> children (SASL namespace) of <mechanisms/>.
+func parseOffered(features string) []string {
+	st := xmltree.ParseStream([]byte("<stream:stream xmlns:stream='"+nsStream+"' xmlns='jabber:client'>"+features), true)
+	var out []string
+	for _, f := range st.Elems {
+		m := f.Child(nsSASL, "mechanisms")
+		if m == nil {
+			continue
+		}
+		for _, c := range m.Children() {
+			if c.Name.Space == nsSASL && c.Name.Local == "mechanism" {
+				out = append(out, c.Text())
+			}
+		}
+	}
+	return out
 }
 
 func serverHeader(id string) string {
@@ -316,7 +421,8 @@ func (a *initAdv) feed(delta []byte, idle bool) (reply []byte, eof bool) {
 		if ev.Header {
 			a.headers++
 			if a.headers == 1 {
-				f := featuresXML(a.sc.Advertised)
+				f := layoutMechanisms(featuresXML(a.sc.Advertised), a.sc.MechLayout, a.sc.Stray)
+				a.offered = parseOffered(f)
 				extra := "<channel-binding-types xmlns='" + nsSASL + "'><type>tls-exporter</type></channel-binding-types>"
 				mech := "<mechanisms"
 				switch a.sc.SASLExtra {
@@ -456,8 +562,26 @@ func (a *initAdv) realise(kind string) (wire string, e entry, eof bool) {
 		e.Carrier = "success"
 		wire = sasl1("success", garbage)
 	case "Sx":
-		e.Carrier = "success"
+		e.Carrier, e.Undecodable = "success", true
 		wire = sasl1("success", "!!not*base64!!")
+	case "Sp", "Cp":
+		pl := payloadTable[a.r.Intn(len(payloadTable))]
+		if len(a.sc.Payloads) > 0 {
+			pl, a.sc.Payloads = a.sc.Payloads[0], a.sc.Payloads[1:]
+		}
+		if a.srv != nil && saslpeer.Steps(a.srv.Name) > 0 && a.legitIdx == 0 && spinsSCRAMClient(pl) {
+			a.spinAvoided++
+			pl = "eD0x"
+		}
+		e.Carrier = "success"
+		if kind == "Cp" {
+			e.Carrier = "challenge"
+		}
+		e.Text, e.Undecodable = pl, undecodable(pl)
+		e.Empty = strings.TrimSpace(pl) == "" || strings.TrimSpace(pl) == "="
+		var esc strings.Builder
+		xml.EscapeText(&esc, []byte(pl))
+		wire = "<" + e.Carrier + " xmlns='" + nsSASL + "'>" + esc.String() + "</" + e.Carrier + ">"
 	case "C0":
 		e.Carrier, e.Empty = "challenge", true
 		wire = sasl1("challenge", "")
@@ -468,7 +592,7 @@ func (a *initAdv) realise(kind string) (wire string, e entry, eof bool) {
 		e.Carrier = "challenge"
 		wire = sasl1("challenge", garbage)
 	case "Cx":
-		e.Carrier = "challenge"
+		e.Carrier, e.Undecodable = "challenge", true
 		wire = sasl1("challenge", "%%%")
 	case "Cr":
 		e.Carrier = "challenge"
@@ -592,6 +716,21 @@ func genInit(r *rand.Rand) *initScenario {
 				sc.Script = append(sc.Script, "L")
 			} else {
 				sc.Script = append(sc.Script, initAlphabet[r.Intn(len(initAlphabet))])
+			}
+		}
+	}
+	// something other than <mechanism/> children inside <mechanisms/>, carrying
+	// the name of a mechanism the client would like
+	if r.Intn(6) == 0 {
+		sc.MechLayout = mechLayouts[r.Intn(len(mechLayouts))]
+		sc.Stray = sc.ClientMechs[0]
+		if r.Intn(2) == 0 && !sc.TLS {
+			p := r.Perm(3)
+			sc.ClientMechs = []string{saslpeer.Names[p[0]]}
+			sc.Stray = sc.ClientMechs[0]
+			sc.Advertised = []string{saslpeer.Names[p[1]]}
+			if r.Intn(4) == 0 {
+				sc.Advertised = nil
 			}
 		}
 	}
@@ -997,6 +1136,9 @@ func runInitiator(c *core.Case, sc *initScenario) {
 	for _, e := range log {
 		c.Count("init_action_"+e.Kind, 1)
 	}
+	if adv.spinAvoided > 0 {
+		c.Count("init_payloads_replaced_to_avoid_spin_in_sasl_dependency", adv.spinAvoided)
+	}
 	if cancelFired {
 		c.Count("init_cancel_fired", 1)
 		if steps := saslpeer.Steps(lastOf(adv.authMechs)); steps > 0 {
@@ -1030,9 +1172,9 @@ func judgeInit(c *core.Case, sc *initScenario, adv *initAdv, res *negResult, s *
 
 	// a mechanism that both sides did not offer is never used
 	for _, m := range adv.authMechs {
-		if !contains(sc.Advertised, m) || !contains(sc.ClientMechs, m) {
+		if !contains(adv.offered, m) || !contains(sc.ClientMechs, m) {
 			c.Violate("authn:initiator:"+keyFamily(m)+":unoffered-mechanism-used",
-				"<auth/> names %q; advertised %q, configured %q", m, sc.Advertised, sc.ClientMechs)
+				"<auth/> names %q; offered (direct <mechanism/> children of the list that was sent) %q, configured %q, layout %q", m, adv.offered, sc.ClientMechs, sc.MechLayout)
 		}
 	}
 	if len(adv.authMechs) > 1 {
@@ -1493,7 +1635,7 @@ func genRecv(r *rand.Rand) *recvScenario {
 	default:
 		sc.ServerMechs = pickSubset(r, saslpeer.Names[:3], 1)
 	}
-	sc.Perm = []string{"match", "match", "always", "never", "flip"}[r.Intn(5)]
+	sc.Perm = []string{"match", "match", "always", "never", "flip", "match", "always", "nil-saslserver", "nil-sasl"}[r.Intn(9)]
 	if r.Intn(3) == 0 {
 		sc.Chunk = 1 + r.Intn(40)
 	}
@@ -1571,7 +1713,19 @@ func runReceiver(c *core.Case, sc *recvScenario) {
 		return v
 	}
 	res := &negResult{}
-	feat := wrap(xmpp.SASLServer(perm, mechs...), res, func() int { return len(adv.log) })
+	var base xmpp.StreamFeature
+	switch sc.Perm {
+	case "nil-saslserver": // no callback: nobody can be authenticated
+		base = xmpp.SASLServer(nil, mechs...)
+	case "nil-sasl": // the initiating constructor used on a receiving session
+		base = xmpp.SASL("", rightPass, mechs...)
+	default:
+		base = xmpp.SASLServer(perm, mechs...)
+	}
+	if strings.HasPrefix(sc.Perm, "nil-") {
+		c.Count("recv_cases_without_permission_callback_"+strings.TrimPrefix(sc.Perm, "nil-"), 1)
+	}
+	feat := wrap(base, res, func() int { return len(adv.log) })
 	conn := bufconn.NewScripted(adv.feed)
 	if sc.Chunk > 0 {
 		k := sc.Chunk
@@ -1766,6 +1920,49 @@ var fixedCases = []func(c *core.Case){
 	},
 }
 
+func init() {
+	// every payload of the table in the receiver's verdict: on <success/> for
+	// PLAIN, on the awaited <success/> after a SCRAM exchange that finished on a
+	// <challenge/>, and on a <challenge/>
+	for _, pl := range payloadTable {
+		pl := pl
+		fixedCases = append(fixedCases,
+			func(c *core.Case) {
+				c.Count("init_fixed_payload_table_cases", 1)
+				runInitiator(c, &initScenario{Role: "initiator", ClientMechs: []string{"PLAIN"}, Advertised: []string{"PLAIN"},
+					Password: "pw1", ServerPass: "pw1", Iter: 8, Script: []string{"Sp"}, Payloads: []string{pl}})
+			},
+			func(c *core.Case) {
+				c.Count("init_fixed_payload_table_cases", 1)
+				runInitiator(c, &initScenario{Role: "initiator", ClientMechs: []string{"SCRAM-SHA-1"}, Advertised: []string{"SCRAM-SHA-1"},
+					Password: "pw1", ServerPass: "pw1", Iter: 8, Script: []string{"L", "Lc", "Sp"}, Payloads: []string{pl}})
+			},
+			func(c *core.Case) {
+				c.Count("init_fixed_payload_table_cases", 1)
+				runInitiator(c, &initScenario{Role: "initiator", ClientMechs: []string{"SCRAM-SHA-256"}, Advertised: []string{"SCRAM-SHA-256"},
+					Password: "pw1", ServerPass: "pw1", Iter: 8, Script: []string{"L", "Cp", "S0"}, Payloads: []string{pl}})
+			})
+	}
+	// every layout of <mechanisms/>: the client wants PLAIN, SCRAM-SHA-1 is offered
+	for _, l := range mechLayouts {
+		l := l
+		fixedCases = append(fixedCases, func(c *core.Case) {
+			c.Count("init_fixed_mechanisms_layout_cases", 1)
+			runInitiator(c, &initScenario{Role: "initiator", ClientMechs: []string{"PLAIN"}, Advertised: []string{"SCRAM-SHA-1"},
+				Password: "pw1", ServerPass: "pw1", Iter: 8, Script: []string{"L", "L"}, MechLayout: l, Stray: "PLAIN"})
+		})
+	}
+	// receiving features without a permission callback
+	for _, perm := range []string{"nil-saslserver", "nil-sasl"} {
+		for _, script := range [][]string{{"auth-ok"}, {"auth-badpw"}, {"xauth", "xresp"}} {
+			perm, script := perm, script
+			fixedCases = append(fixedCases, func(c *core.Case) {
+				runReceiver(c, &recvScenario{Role: "receiver", ServerMechs: []string{"PLAIN", testMechName}, TestSteps: 2, Perm: perm, Script: script})
+			})
+		}
+	}
+}
+
 func fixedInit(c *core.Case, script ...string) {
 	c.Count("init_fixed_failure_then_more", 1)
 	runInitiator(c, &initScenario{Role: "initiator", ClientMechs: []string{"SCRAM-SHA-1", "PLAIN"}, Advertised: []string{"SCRAM-SHA-1"},
@@ -1833,6 +2030,8 @@ func Prop() *core.Prop {
 		"init_channel_binding_matched", "recv_accept_PLAIN", "recv_perm_true", "recv_perm_false",
 		"init_cancel_cases_no_deadline_transport", "init_cancel_cases_deadline_transport", "init_cancel_fired",
 		"init_cancel_fired_multi_step_mechanism",
+		"init_fixed_payload_table_cases", "init_fixed_mechanisms_layout_cases",
+		"recv_cases_without_permission_callback_saslserver", "recv_cases_without_permission_callback_sasl",
 		"init_fixed_failure_then_more", "recv_accept_" + testMechName, "recv_exchanges_of_16_or_more_elements",
 		"init_features_sasl_extra_after", "init_features_sasl_extra_before", "init_features_sasl_extra_both",
 		"init_features_sasl_extra_first_choice_not_offered",
@@ -1853,6 +2052,7 @@ func Prop() *core.Prop {
 			"a legitimate mechanism message carried by <success/> instead of <challenge/> (or the reverse) is not by itself a deviation; what is demanded is that all legitimate messages were delivered in order and that the last SASL element delivered before the decision was <success/>",
 			"once every message of the mechanism has been delivered (for PLAIN: at once) the data carried by <success/> is irrelevant: the mechanism has completed and the receiver has signalled success",
 			"with the concurrent TLS peer the moment of the decision cannot be pinned to a log position: Authn is accepted if some prefix of the delivered log is accepting",
+			"mellium.im/sasl v0.3.2's SCRAM client spins forever on a first server message whose last comma-separated field is shorter than 3 bytes or lacks '=' (peer-triggered wedge in a dependency, C09's subject): such payloads are replaced before delivery to a SCRAM client waiting for its first server message (counter init_payloads_replaced_to_avoid_spin_in_sasl_dependency)",
 			"the receiving side of this tree cannot complete SCRAM (xmpp passes no salted credentials to mellium.im/sasl), so the only accepting receiver path is PLAIN; mellium.im/sasl panics for -PLUS mechanisms on the server side, which is counted (recv_plus_mechanism_panic_in_sasl_dependency) and not judged here",
 		},
 		Cases: func(tier string) int {
